@@ -147,6 +147,21 @@ def check_case(ctx, cs):
             ok, r = _try(ctx, site, tg, {}, fn)
             if ok and not close_seq(r, e):
                 ctx.violate(site, tg, {}, {"expected": e, "got": r})
+        for pr in o["pairs"]:
+            a, b = [float(x) for x in pr["a"]], [float(x) for x in pr["b"]]
+            small = {"a": pr["a"], "b": pr["b"]}
+            t2 = tg + ["dims=%dx%d" % (len(a), len(b))]
+            ctx.count(("pair", str(pr["a"]), str(pr["b"])), sample={"op": "vector pair", **small, "cross": pr["cross"]})
+            ok, r = _try(ctx, "linalg.vector_cross", t2, small, lambda: list(linalg.vector_cross(list(a), list(b))))
+            if ok and not close_seq(r, frv(pr["cross"])):
+                ctx.violate("linalg.vector_cross", t2, small, {"expected": fl(frv(pr["cross"])), "got": r})
+            if len(a) == len(b):
+                ok, r = _try(ctx, "linalg.vector_dot", t2, small, lambda: linalg.vector_dot(list(a), list(b)))
+                if ok and not close(r, fr(pr["dot"])):
+                    ctx.violate("linalg.vector_dot", t2, small, {"expected": float(fr(pr["dot"])), "got": r})
+            ok, r = _try(ctx, "linalg.vector_magnitude", t2, small, lambda: linalg.vector_magnitude(list(a)))
+            if ok and not close(r, math.sqrt(float(fr(pr["norm2"])))):
+                ctx.violate("linalg.vector_magnitude", t2, small, {"expected": math.sqrt(float(fr(pr["norm2"]))), "got": r})
     else:
         raise core.MachineryError("unknown op")
 
